@@ -5,7 +5,7 @@ _C09_ENV = {"ASAN_OPTIONS": "detect_leaks=0:abort_on_error=1:allocator_may_retur
                             "handle_abort=0:quarantine_size_mb=32:malloc_context_size=5"}
 rc_target("c09_array", flavour="asan-dbg", env=_C09_ENV)
 rc_target("c09_linked", flavour="asan-dbg", env=_C09_ENV)
-plan("C09", [T("c09_array", 25000, 150000), TT(GCC("c09_array"), 8000), T("c09_linked", 25000, 150000)], min_nt=12000,
+plan("C09", [T("c09_array", 25000, 150000), TT(GCC("c09_array"), 8000), T("c09_linked", 25000, 150000), TT(GCC("c09_linked"), 8000)], min_nt=12000,
      rule="stateful command sequences against a reference sequence (array list: vector of byte strings per list; linked list: two id vectors + membership table)",
      technique="model-based property testing (rapidcheck): command sequences vs. a reference sequence, full content / traversal comparison after every command",
      level_text="Generated search: thousands of shrinking command sequences (<=60 commands) per run. Array list: two lists of one item size in "
